@@ -32,7 +32,9 @@ class LossEval(NdContract):
     def params(self, eng, st):
         self.lo, self.hi = Real("min_val"), Real("max_val")
         st.assume(self.lo <= self.hi, n >= 1)
-        st.env.update({"self": Obj(self.cls, {"min_val": self.lo, "max_val": self.hi}),
+        # the object as its __init__ builds it: min/max are the bounds of the LOSS (0 and (max_val-min_val)^2 resp. |max_val-min_val|), not of the values
+        mx = (self.hi - self.lo) * (self.hi - self.lo) if self.cls == "SquareLoss" else self.hi - self.lo
+        st.env.update({"self": Obj(self.cls, {"min_val": self.lo, "max_val": self.hi, "min": z3.RealVal(0), "max": mx}),
                        "y_true": Nd("y_true", (n,), "series", "DEFAULT", cell=lambda i: Y(i)), "y_pred": Nd("y_pred", (n,), "series", "DEFAULT", cell=lambda i: P(i))})
 
     def on_call(self, eng, st, node, name, recv, args, kwargs):
